@@ -75,7 +75,7 @@ def run(ctx):
             corpus_cause["corpus:" + base] = base.split("__")[0]
         progs.append(("corpus:" + base, open(f).read(), None, False, False))
     bodies = [(k,) + v for k, v in c11_progs.LOOP_BODIES.items()]
-    per = 4 if quick else 3        # bodies per program: the instrumented runs are the long pole, so spread them
+    per = 3                        # bodies per program: the instrumented runs are the long pole, so spread them
     for j in range(0, len(bodies), per):
         part = bodies[j:j + per]
         progs.append(("loops:%d" % (j // per), c11_progs.loop_program(part, n_loop), ["loop:" + b[0] for b in part], False, False))
@@ -90,10 +90,12 @@ def run(ctx):
         types = c11chk.REF_TYPES + ctx.rng.sample(scal, 2)
     for t, src, cnames in c11_progs.matrix_loop_programs(n_matrix, types=types):
         progs.append(("matrix:" + t, src, ["matrix:%s/%s" % (t, c) for c in cnames], False, False))
-    workers = int(os.environ.get("VERIF_WORKERS", "8" if quick else "14"))
+    workers = int(os.environ.get("VERIF_WORKERS", "12" if quick else "14"))
     traced = [(n, s) for n, s, _, _, tr in progs if tr]
     plain = [(n, s) for n, s, _, _, tr in progs if not tr]
-    results = c11_run.run_programs(ctx, harness, plain, trace=False, workers=workers, timeout=1500)
+    # the long loops run under poisoning only in the quick tier (C11 runs every construct under quarantine as well)
+    results = c11_run.run_programs(ctx, harness, plain, trace=False, workers=workers, timeout=1500,
+                                   modes="poison" if quick else "poison,quarantine")
     results.update(c11_run.run_programs(ctx, harness, traced, trace=True, workers=1, timeout=1500))
     dist = {"loops": 0, "loops_bounded": 0, "loops_flagged": 0, "control_cycles_flagged": 0, "checkpoints": 0}
     evals, samples, c11dist = 0, [], {}
